@@ -78,6 +78,12 @@ def gen_case(rng, chk):
             else:
                 rows.append(row())
         script.append(rows)
+    if off == 0 and rng.random() < 0.5:
+        # zeros of either sign: -0.0 == 0.0, so a point that differs from another only in the sign of a zero IS a repeat of it
+        neg = lambda rows: [[(-0.0 if (v == 0 and rng.random() < 0.5) else float(v)) for v in r] for r in rows]
+        existing = neg(existing)
+        script = [neg(rows) for rows in script]
+        chk.count("signed_zeros")
     return dims, b, passes, existing, script
 
 
